@@ -23,18 +23,26 @@ pub const RELEASE_ALL: Event = Event::Released(KeyCode::KPJPCOMMA);
 
 fn gen_layout(r: &mut Rng, absorbing: bool) -> Layout {
   let n = 1 + r.below(4);
+  let heavy = absorbing && r.below(2) == 0;        // absorbing-heavy family: most chords absorb their modifiers, outputs often modifier-only
   let mut ms = Vec::new();
   for _ in 0..n {
     let fl = 1 + r.below(3);
     let mut from: Vec<KeyCode> = Vec::new();
     while from.len() < fl { let k = LKEYS[r.below(LKEYS.len())]; if !from.contains(&k) { from.push(k); } }
-    let tl = r.below(3);
+    let tl = r.below(3) + if r.below(6) == 0 { 1 } else { 0 };
     let mut to: Vec<KeyCode> = Vec::new();
     let pool: Vec<KeyCode> = LKEYS.iter().chain(OUTS.iter()).cloned().collect();
-    while to.len() < tl { let k = pool[r.below(pool.len())]; if !to.contains(&k) { to.push(k); } }
+    let mods: [KeyCode; 3] = [KeyCode::LEFTSHIFT, KeyCode::LEFTCTRL, KeyCode::RIGHTALT];
+    while to.len() < tl {
+      let k = if heavy && r.below(3) == 0 { mods[r.below(3)] } else { pool[r.below(pool.len())] };
+      if !to.contains(&k) { to.push(k); }
+    }
     let repeat = match r.below(4) { 0 => Repeat::Disabled, 1 => Repeat::Special { keys: vec![OUTS[0]], delay_ms: 10, interval_ms: 5 }, _ => Repeat::Normal };
     let mut absorbing_l = Vec::new();
-    if absorbing && r.below(3) == 0 && from.len() > 1 { absorbing_l.push(from[r.below(from.len() - 1)]); }
+    if absorbing && from.len() > 1 {
+      if heavy { if r.below(3) != 0 { for k in &from[..from.len() - 1] { if r.below(3) != 0 { absorbing_l.push(*k); } } } }
+      else if r.below(3) == 0 { absorbing_l.push(from[r.below(from.len() - 1)]); }
+    }
     ms.push(Mapping { from, to, repeat, absorbing: absorbing_l });
   }
   Layout { mappings: ms }
@@ -46,12 +54,22 @@ pub fn gen_case(r: &mut Rng, with_release_all: bool) -> (Layout, Vec<Event>) {
   let len = 1 + r.below(14);
   let mut phys: BTreeSet<KeyCode> = BTreeSet::new();
   let mut hist = Vec::new();
-  for _ in 0..len {
+  let chordy = r.below(3) != 0;                     // chord-directed histories: press the trigger keys of a mapping in listed order
+  while hist.len() < len {
     if with_release_all && r.below(25) == 0 { hist.push(RELEASE_ALL); continue; }
+    if chordy && !layout.mappings.is_empty() && r.below(3) == 0 {
+      let m = &layout.mappings[r.below(layout.mappings.len())];
+      for k in &m.from { if !phys.contains(k) { phys.insert(*k); hist.push(Pressed(*k)); } }
+      if r.below(3) == 0 { let k = *m.from.last().unwrap(); phys.remove(&k); hist.push(Released(k)); if r.below(2) == 0 { phys.insert(k); hist.push(Pressed(k)); } }
+      continue;
+    }
+    if chordy && r.below(10) == 0 { let ks: Vec<KeyCode> = phys.iter().cloned().collect(); for k in ks { if r.below(4) != 0 { phys.remove(&k); hist.push(Released(k)); } } continue; }
     let k = EKEYS[r.below(EKEYS.len())];
     let press = if r.below(8) == 0 { r.below(2) == 0 } else { !phys.contains(&k) };
     if press { phys.insert(k); hist.push(Pressed(k)); } else { phys.remove(&k); hist.push(Released(k)); }
   }
+  // half of the histories end with every physically held key released (C01 / C06 are about that moment)
+  if r.below(2) == 0 { let mut ks: Vec<KeyCode> = phys.iter().cloned().collect(); while !ks.is_empty() { let i = r.below(ks.len()); hist.push(Released(ks.remove(i))); } }
   (layout, hist)
 }
 
@@ -70,6 +88,10 @@ fn clone_state(st: &State) -> State {
 /// run `hist` on a new mapper for `layout`, checking the oracles of `prop`; first violation as (step index, message)
 pub fn check_history(prop: &str, layout: &Layout, hist: &Vec<Event>, trace: bool) -> Option<(usize, String)> {
   let has_abs = layout.mappings.iter().any(|m| !m.absorbing.is_empty());
+  // known finding D8 (see /verif/known_findings.txt): an absorbing mapping whose output has no non-modifier key takes over the single
+  // absorbing_trigger without lifting earlier absorbed keys. The witness SEARCH stays inside the claimed scope (every absorbing mapping
+  // outputs a non-modifier key); a REPLAY (trace = true) checks the full statement.
+  let c08_in_scope = trace || layout.mappings.iter().all(|m| m.absorbing.is_empty() || m.to.iter().any(|k| is_action_key(k)));
   let mut m = Mapper::for_layout(layout);
   let mut phys: BTreeSet<KeyCode> = BTreeSet::new();
   let mut dev: BTreeSet<KeyCode> = BTreeSet::new();
@@ -191,7 +213,7 @@ pub fn check_history(prop: &str, layout: &Layout, hist: &Vec<Event>, trace: bool
     }
     // C08
     if press && acted {
-      for (mk, trig) in absorbed_track.iter() {
+      for (mk, trig) in absorbed_track.iter().filter(|_| c08_in_scope) {
         if k != *trig && k != *mk {
           if let Some(am) = m.state.active_mappings.last() { if fired.is_some() && am.from.contains(mk) { fail("C08", format!("absorbed {:?} used by a later mapping {:?}", mk, am)); } }
           for (ev, h) in &inst { if let Pressed(x) = ev { if is_action_key(x) && h.contains(mk) && !m.state.active_mappings.iter().any(|am| am.to.contains(mk)) { fail("C08", format!("absorbed {:?} is down when non-modifier {:?} is pressed", mk, x)); } } }
